@@ -564,8 +564,7 @@ def evaluate(ctx, prop, cases, impl, cov, dist, flavour, engines=("index", "fifo
                     "payload_hex": hexs(payload) if len(payload) < 4000 else hexs(payload[:2000]) + "...",
                     "payload_len": len(payload), "chunks": [len(x) for x in c.streams[key]][:200],
                     "expected_prefix": prefix.decode("latin-1"),
-                    "emissions": [short(e, 80) for e in ems][-12:], "flavour": flavour, "case": c.to_json() if n < 80 else
-                    {"ops": n, "tags": sorted(c.tags)}}
+                    "emissions": [short(e, 80) for e in ems][-12:], "flavour": flavour, "case": c.to_json()}
             if len(c.streams[key]) > 1 and payload.count(b"\n") >= 2:
                 # non-trivial: at least 2 lines and a chunk boundary strictly inside a line
                 cut, inside = 0, False
@@ -646,16 +645,51 @@ def load_corpus(prop):
         for f in sorted(os.listdir(d)):
             if not f.endswith(".json"):
                 continue
-            j = json.load(open(os.path.join(d, f)))
-            c = Case()
-            c.targets = [t.encode("latin-1") for t in j["targets"]]
-            c.labels, c.optK = bool(j["labels"]), bool(j["K"])
-            c.streams = {(int(k[:-1]), k[-1]): [unhex(x) for x in v] for k, v in j["streams"].items()}
-            c.ops = list(j["ops"])
-            c.tags = set(j.get("tags", [])) | {"corpus"}
-            c.complete = j.get("complete", True)
-            out.append(c)
+            out.append(case_from_json(json.load(open(os.path.join(d, f))), "corpus"))
     return out
+
+
+def case_from_json(j, tag):
+    c = Case()
+    c.targets = [t.encode("latin-1") for t in j["targets"]]
+    c.labels, c.optK = bool(j["labels"]), bool(j["K"])
+    c.streams = {(int(k[:-1]), k[-1]): [unhex(x) for x in v] for k, v in j["streams"].items()}
+    c.ops = list(j["ops"])
+    c.tags = set(j.get("tags", [])) | {tag}
+    # complete = every stream reaches eof+drain (or a run op) and every host is flushed: then the oracle applies
+    closed = set()
+    for op in c.ops:
+        w = op.split()
+        if w[0] in ("drain", "run"):
+            closed.add((int(w[1]), w[2][0]))
+    c.complete = j.get("complete", all(k in closed for k in c.streams))
+    return c
+
+
+def find_replay_case(obj):
+    """locate a replayable case inside a replay file: ("inproc", case json) | ("real", run spec) | None"""
+    import json
+    if isinstance(obj, dict):
+        if obj.get("kind") == "real-run" and "hosts" in obj:
+            return ("real", obj)
+        if all(k in obj for k in ("ops", "targets", "streams")) and isinstance(obj["ops"], list):
+            return ("inproc", obj)
+        for v in obj.values():
+            r = find_replay_case(v)
+            if r:
+                return r
+    elif isinstance(obj, list):
+        for v in obj:
+            r = find_replay_case(v)
+            if r:
+                return r
+    elif isinstance(obj, str) and "case={" in obj:
+        # a recorded model/implementation disagreement carries its case as (possibly truncated) JSON text
+        try:
+            return find_replay_case(json.loads(obj[obj.index("case={") + 5:]))
+        except ValueError:
+            return None
+    return None
 
 
 def d9_probe(ctx, exe, dist):
@@ -715,7 +749,33 @@ def run_check(ctx, prop, props_module, level):
     dist = {"tags": {}, "flavours": {}}
     exe_dbg = build_harness(ctx, "relay_dbg", assertions=True)
     exe_rel = build_harness(ctx, "relay_rel", assertions=False)
-    if exe_dbg and exe_rel:
+    replay = None
+    if getattr(ctx, "replay", None):
+        import json
+        replay = find_replay_case(json.load(open(ctx.replay)))
+        if replay is None:
+            ctx.log("replay: the file names no replayable case (a broken theorem, or a case too long to be "
+                    "recorded with a disagreement): running the normal check")
+    if replay and exe_dbg and exe_rel:
+        # ---- ./check.py Cnn --replay FILE: exactly the recorded case, judged exactly like in a normal run
+        kind, obj = replay
+        cov["rule"] = "replay of " + os.path.basename(ctx.replay) + "; " + cov["rule"]
+        if kind == "inproc":
+            for exe, name in ((exe_dbg, "assert+asan"), (exe_rel, "shipped(NDEBUG)+asan")):
+                cases = [case_from_json(obj, "replay")]
+                impl = run_impl(exe, [c.ops for c in cases], op_timeout=60)
+                dist["flavours"][name] = 1
+                evaluate(ctx, prop, cases, impl, cov, dist, name, meta=harness_meta(exe))
+                ans, crash = impl[0]
+                ctx.log("replay [%s]: %d ops, %s" % (name, len(cases[0].ops), "aborted: " + crash[-200:] if crash else
+                                                     "last answer `%s`" % (ans[-1][:120] if ans else "")))
+            builder.join()
+        else:
+            builder.join()
+            relay_real.replay_real(ctx, prop, obj, cov, dist)
+        if not ctx.violations and not ctx.known_hits and not ctx.broken:
+            ctx.log("replay: the property holds on the recorded case")
+    elif exe_dbg and exe_rel:
         quick = ctx.quick()
         plan = []
         for exe, name, share in ((exe_dbg, "assert+asan", 0.6), (exe_rel, "shipped(NDEBUG)+asan", 0.4)):
@@ -741,8 +801,9 @@ def run_check(ctx, prop, props_module, level):
             evaluate(ctx, prop, cases, impl, cov, dist, name, meta=meta)
             ctx.log("in-process [%s]: %d cases" % (name, len(cases)))
         d9_probe(ctx, exe_dbg, dist)
-    builder.join()
-    relay_real.run_real(ctx, prop, cov, dist)
+    if not replay:
+        builder.join()
+        relay_real.run_real(ctx, prop, cov, dist)
     cov["distinct_nontrivial"] = len(cov.pop("_distinct"))
     cov["distribution"] = dist
     cov["traces_validated_against_impl"] = cov["evaluations"]
